@@ -341,15 +341,30 @@ def _scenarios():
     def simple(func, **kw):
         flags = [k for k, v in kw.items() if callable(v) and getattr(v, '_variant', False)]
 
-        def build(variant):
+        iters = [k for k, v in kw.items() if isinstance(v, It)]
+
+        def build(variant, as_iter=False, over=None):
             # variant: 0 / 1 (all flags take their first / second value) or one 0/1 choice per boolean flag
             sel = dict(zip(flags, variant)) if isinstance(variant, (list, tuple)) else {k: variant for k in flags}
             args = {}
             for k, v in kw.items():
-                args[k] = v(sel[k]) if k in sel else v
-            return (lambda c: getattr(c, func)(**args)), args
+                args[k] = v(sel[k]) if k in sel else (tuple(v.items) if isinstance(v, It) else v)
+            args.update(over or {})
+
+            def call(c):
+                # an argument documented as "an iterable" may be a one-shot iterator: what is recorded must not depend on it
+                given = {k: ((x for x in v) if (as_iter and k in iters) else v) for k, v in args.items()}
+                return getattr(c, func)(**given)
+            return call, args
         build.nflags = len(flags)
+        build.niter = len(iters)
         return build
+
+    class It:
+        """an argument the directive documents as an arbitrary iterable"""
+
+        def __init__(self, *items):
+            self.items = items
 
     def V(a, b):
         f = lambda choice: a if choice == 0 else b
@@ -369,9 +384,11 @@ def _scenarios():
     S['set_locale_negotiator'] = ('set_locale_negotiator', simple('set_locale_negotiator', negotiator=mk('ln')))
 
     def add_translation_dirs(variant):
-        spec = 'harness.c20:locale/'
-        return (lambda c: c.add_translation_dirs(spec)), {'specs': spec}
-    add_translation_dirs.nflags = 0
+        # both spellings of a directory spec; each entry stands for one element of `specs` (documented key: spec)
+        flag = variant[0] if isinstance(variant, (list, tuple)) else variant
+        spec = 'harness.c20:locale' if flag == 0 else 'harness.c20:locale/'
+        return (lambda c: c.add_translation_dirs(spec)), {'specs': spec, 'spec': spec}
+    add_translation_dirs.nflags = 1
     S['add_translation_dirs'] = ('register', add_translation_dirs)
     S['add_renderer'] = ('add_renderer', simple('add_renderer', name='.zz', factory=mk('rf')))
     S['add_route'] = ('add_route', simple(
@@ -383,7 +400,7 @@ def _scenarios():
     S['add_permission'] = ('add_permission', simple('add_permission', permission_name='perm.x'))
     S['set_default_csrf_options'] = ('set_default_csrf_options', simple(
         'set_default_csrf_options', require_csrf=V(True, False), token='tok', header='X-Tok',
-        safe_methods=('GET', 'OPTIONS'), check_origin=V(True, False), allow_no_origin=V(False, True), callback=mk('cb')))
+        safe_methods=It('GET', 'OPTIONS'), check_origin=V(True, False), allow_no_origin=V(False, True), callback=mk('cb')))
     S['set_csrf_storage_policy'] = ('set_csrf_storage_policy', simple('set_csrf_storage_policy', policy=mk('csp')))
     S['add_tween'] = ('_add_tween', simple('add_tween', tween_factory='harness.c20.prop.tween_factory_x',
                                            under='pyramid.tweens.excview_tween_factory', over='pyramid.tweens.MAIN'))
@@ -409,7 +426,6 @@ def _scenarios():
         cb = mk('cachebust')
 
         def call(c):
-            c.add_static_view(name='statv', path=spec)
             c.add_cache_buster(spec, cb, explicit=explicit)
         return call, {'spec': spec, 'cachebust': cb, 'explicit': explicit}
     S['add_cache_buster'] = ('add_cache_buster', custom(1, add_cache_buster))
@@ -453,6 +469,24 @@ def _scenarios():
         pass
     S['add_exception_view'] = ('add_view', simple('add_exception_view', view=mk('excview'), context=Boom,
                                                   xhr=V(True, False), **common))
+    # pairs of statements of one directive that share their principal object (callable / spec / name) and differ in another
+    # argument: (mode, variant of the first, variant of the second, argument overrides of the second); mode 'prefix' puts
+    # each statement into its own include with its own route prefix
+    P = _PAIRS
+    P['add_subscriber'] = ('same', 0, 0, {'iface': IB})
+    P['add_response_adapter'] = ('same', 0, 0, {'type_or_iface': IB})
+    P['add_traverser'] = ('same', 0, 0, {'iface': IB})
+    P['add_resource_url_adapter'] = ('same', 0, 0, {'resource_iface': IA})
+    P['add_cache_buster'] = ('same', 0, 1, None)
+    P['add_renderer'] = ('same', 0, 0, {'name': '.yy'})
+    P['add_request_method'] = ('same', 0, 0, {'name': 'rmname2'})
+    P['add_view'] = ('same', 0, 0, {'name': 'vname2'})
+    P['add_route'] = ('same', 0, 0, {'name': 'rname2'})
+    P['add_view_deriver'] = ('same', 0, 0, {'name': 'dvname2'})
+    P['add_permission'] = ('same', 0, 0, {'permission_name': 'perm.y'})
+    P['add_view_predicate'] = ('same', 0, 0, {'name': 'zz_view_pred2'})
+    P['add_static_view'] = ('prefix', 0, 0, None)
+    P['add_route/prefix'] = ('prefix', 0, 0, None)
     for fam in ('view', 'route', 'subscriber'):
         S['add_%s_predicate' % fam] = ('_add_predicate', simple(
             'add_%s_predicate' % fam, name='zz_%s_pred' % fam, factory=mk(fam + '_pred_factory'),
@@ -491,6 +525,7 @@ EXPECT_CATEGORY = {
 }
 
 _SC = {}
+_PAIRS = {}
 
 
 def scenarios():
@@ -499,10 +534,27 @@ def scenarios():
     return _SC
 
 
-def _match(recorded, passed):
-    """does `recorded` carry `passed` (identity, equality, or a documented normalisation of it)?"""
+_DOCNORM = []
+
+
+def _docnorm():
+    """(category, key) pairs the documentation describes as a NORMALISED version of the argument"""
+    if not _DOCNORM:
+        import harness.common.build as B
+        try:
+            _DOCNORM.append(X.documented_normalised(os.path.dirname(B.SRC)))
+        except OSError:
+            _DOCNORM.append(set())
+    return _DOCNORM[0]
+
+
+def _match(recorded, passed, tolerant=False):
+    """does `recorded` carry `passed`?  identity, equality, the documented tuple/dotted-name normalisations; strings must be
+    EQUAL unless the documentation calls the key a normalised version of the argument (tolerant: prefix/suffix added)"""
     if recorded is passed:
         return True
+    if isinstance(passed, str) and isinstance(recorded, str):
+        return recorded == passed or (tolerant and bool(passed) and passed in recorded)
     if isinstance(passed, bool) or isinstance(recorded, bool):
         return isinstance(passed, bool) and isinstance(recorded, bool) and passed == recorded
     try:
@@ -516,8 +568,6 @@ def _match(recorded, passed):
             return True
     except Exception:
         pass
-    if isinstance(passed, str) and isinstance(recorded, str) and passed and (recorded.endswith(passed) or passed in recorded):
-        return True
     if isinstance(passed, str) and '.' in passed and hasattr(recorded, '__name__') and passed.endswith('.' + recorded.__name__):
         return True     # maybe_dotted('pkg.mod.name')
     if isinstance(recorded, (tuple, list)) and passed in recorded:
@@ -529,10 +579,8 @@ def _run_directive(case):
     from pyramid.config import Configurator
     name, variant = case['name'], case['variant']
     func, build = scenarios()[name]
-    call, args = build(variant)
+    call, args = build(variant, True) if case.get('iter') else build(variant)
     c = Configurator(autocommit=False)
-    if name in ('set_default_permission', 'add_view'):
-        pass
     before = {(cn, id(e['introspectable'])) for cn, items in c.introspector.categorized() for e in items}
     call(c)
     c.commit()
@@ -543,7 +591,11 @@ def _run_directive(case):
             if (cn, id(intr)) in before:
                 continue
             for k in sorted(intr.keys()):
-                srcs = sorted(p for p, v in args.items() if v is not None and _match(intr[k], v))
+                tol = (cn, k) in _docnorm()
+                srcs = sorted(p for p, v in args.items() if v is not None and _match(intr[k], v, tol))
+                # near miss, reported so that the deviation can be named exactly: the argument with a slash appended
+                srcs += sorted(p + '+/' for p, v in args.items() if isinstance(v, str) and isinstance(intr[k], str)
+                               and p not in srcs and intr[k] == v + '/')
                 out.append([cn, k, srcs, ('T' if intr[k] else 'F') if isinstance(intr[k], bool) else ''])
             # "action info points at the statement": the statement is issued from this file
             ai = intr.action_info
@@ -551,6 +603,58 @@ def _run_directive(case):
             out.append([cn, '@action_info', ['statement'] if fn.endswith(os.path.join('harness', 'c20', 'prop.py'))
                         else ['elsewhere:' + os.path.basename(fn)], ''])
     return [func, out]
+
+
+def _carries(func, cn, intr, args, scen):
+    """does the entry hold the arguments of this statement?  (keys named like an argument; keys the table attributes to one)"""
+    sites = [s_ for s_ in _table().get(func, []) if s_['category'] == cn]
+    for k in intr.keys():
+        exp = DOC_EXPECT.get((scen, k))
+        if exp is not None and exp(args) is not None:
+            continue
+        tol = True      # which entry belongs to which statement; exact values are judged by the directive stream
+        if k in args and args[k] is not None and not _match(intr[k], args[k], tol):
+            return False
+        for f in [kk['form'] for s_ in sites for kk in s_['keys'] if kk['key'] == k]:
+            if f[0] in ('arg', 'norm') and f[-1] in args and args[f[-1]] is not None and 'expr' not in f[1].split('+') \
+                    and not f[1].startswith('local:') and not _match(intr[k], args[f[-1]], tol):
+                return False
+    return True
+
+
+def _run_pair(case):
+    """two statements of one directive, both in effect (the commit reports no conflict): each must have an entry of its own"""
+    from pyramid.config import Configurator
+    from pyramid.exceptions import ConfigurationConflictError, ConfigurationError
+    scenarios()
+    mode, v1, v2, over = _PAIRS[case['name']]
+    scen = case['name'].split('/')[0]
+    func, build = scenarios()[scen]
+    call1, args1 = build(v1)
+    call2, args2 = build(v2, False, over) if over else build(v2)
+    c = Configurator(autocommit=False)
+    before = {id(e['introspectable']) for cn, items in c.introspector.categorized() for e in items}
+    if mode == 'prefix':
+        def inc_a(cfg):
+            call1(cfg)
+
+        def inc_b(cfg):
+            call2(cfg)
+        c.include(inc_a, route_prefix='pa')
+        c.include(inc_b, route_prefix='pb')
+    else:
+        call1(c)
+        call2(c)
+    try:
+        c.commit()
+    except ConfigurationConflictError:
+        return [1, 0, 0]
+    want = EXPECT_CATEGORY[scen]
+    ents = [e['introspectable'] for e in (c.introspector.get_category(want) or []) if id(e['introspectable']) not in before]
+    ok1 = [i for i, e in enumerate(ents) if _carries(func, want, e, args1, scen)]
+    ok2 = [i for i, e in enumerate(ents) if _carries(func, want, e, args2, scen)]
+    m = 2 if any(a != b for a in ok1 for b in ok2) else (1 if (ok1 or ok2) else 0)
+    return [0, len(ents), m]
 
 
 # ------------------------------------------------------------------ include-nesting programs
@@ -780,10 +884,14 @@ def generate(rng, tier, n):
         nflags = getattr(scenarios()[name][1], 'nflags', 0)
         for variant in (0, 1):
             yield {'kind': 'directive', 'name': name, 'variant': variant}
+        if getattr(scenarios()[name][1], 'niter', 0):
+            yield {'kind': 'directive', 'name': name, 'variant': 0, 'iter': True}
         # every combination of the directive's boolean flags (so that a mix-up between two flags shows)
         for combo in itertools.product((0, 1), repeat=nflags):
             if nflags >= 2 and len(set(combo)) > 1:
                 yield {'kind': 'directive', 'name': name, 'variant': list(combo)}
+    for name in sorted(_PAIRS):
+        yield {'kind': 'pair', 'name': name}
     for j in range(n):
         if j % 10 == 9:
             yield gen_viewrels(rng)
@@ -799,6 +907,9 @@ def valid(case):
             return len(case['views']) >= 1 and all(v['name'] == 'v%d' % i and isinstance(v['route'], bool) and isinstance(v['tmpl'], bool)
                                                    and (v['perm'] is None or isinstance(v['perm'], int))
                                                    for i, v in enumerate(case['views'])) and isinstance(case['two_commits'], bool)
+        if case['kind'] == 'pair':
+            scenarios()
+            return case == {'kind': 'pair', 'name': case['name']} and case['name'] in _PAIRS
         if case['kind'] == 'directive':
             if case['name'] not in scenarios():
                 return False
@@ -889,7 +1000,7 @@ def from_wire(case, raw):
 
 
 def equiv(case, obs, model):
-    return case['kind'] in ('directive', 'viewrels')      # the directive stream is judged by spec_holds against the table
+    return case['kind'] in ('directive', 'viewrels', 'pair')      # the directive stream is judged by spec_holds against the table
 
 
 def run_impl(case):
@@ -901,6 +1012,8 @@ def run_impl(case):
         return _run_program(case)
     if case['kind'] == 'viewrels':
         return _run_viewrels(case)
+    if case['kind'] == 'pair':
+        return _run_pair(case)
     if case['kind'] == 'tables':
         import harness.common.build as B
         doc = X.documented(os.path.dirname(B.SRC))
@@ -921,8 +1034,19 @@ def spec_holds(case, obs, spec):
         if a is False or b is False:
             return False
         return True if (a or b) else None
+    if case['kind'] == 'pair':
+        if not (isinstance(obs, list) and len(obs) == 3):
+            return False
+        if obs[0] != 0:
+            return None             # the two statements conflict: the property says nothing
+        return obs[1] >= 2 and obs[2] == 2      # both took effect: an entry of its own for each
     if case['kind'] in ('tables', 'program', 'viewrels'):
         return obs == spec
+    return _directive_spec(case, obs)
+
+
+def _directive_spec(case, obs, waive=None):
+    """waive = (category, key, accept(srcs)): that one row is not judged when accept says it shows exactly the named deviation"""
     if obs and obs[0] == 'HARNESS-EXC':
         return False
     func, rows = obs
@@ -941,6 +1065,8 @@ def spec_holds(case, obs, spec):
         if k == '@action_info':
             if srcs != ['statement']:
                 return False
+            continue
+        if waive is not None and (cn, k) == waive[:2] and waive[2](srcs):
             continue
         exp = DOC_EXPECT.get((case['name'], k))
         exp = exp(args) if (exp is not None and cn == want) else None
@@ -1050,7 +1176,36 @@ def _ops_map_spec(case, obs):
     return True if judged else None
 
 
+# known findings that are a deviation of exactly ONE key of ONE directive's entry: id -> (scenario, category, key,
+# accept(case, srcs) = the row shows exactly that deviation)
+SINGLE_KEY_FINDINGS = {
+    'C20-csrf-safe-methods-iterator-consumed': (
+        'set_default_csrf_options', 'default csrf view options', 'safe_methods',
+        lambda case, srcs: bool(case.get('iter')) and srcs == []),
+    'C20-translation-dirs-spec-trailing-slash': (
+        'add_translation_dirs', 'translation directories', 'spec', lambda case, srcs: 'spec+/' in srcs),
+    'C20-static-view-name-trailing-slash': (
+        'add_static_view', 'static views', 'name', lambda case, srcs: srcs == ['name+/']),
+}
+
+
 def classify(case, obs, spec):
+    try:
+        if case['kind'] == 'pair' and isinstance(obs, list) and len(obs) == 3 and obs[0] == 0:
+            # both statements in effect, ONE entry for the two
+            if case['name'] == 'add_subscriber' and obs == [0, 1, 1]:
+                return 'C20-subscriber-entries-collide'
+            if case['name'] == 'add_cache_buster' and obs == [0, 1, 1]:
+                return 'C20-cache-buster-entries-collide'
+            if case['name'] == 'add_static_view' and obs[1] == 1:
+                return 'C20-static-view-entries-collide-across-route-prefixes'
+        if case['kind'] == 'directive' and isinstance(obs, list) and len(obs) == 2 and isinstance(obs[1], list):
+            for fid, (scen, cn, key, accept) in SINGLE_KEY_FINDINGS.items():
+                if case['name'] == scen and any(r[0] == cn and r[1] == key and accept(case, r[2]) for r in obs[1]) \
+                        and _directive_spec(case, obs, (cn, key, lambda srcs, a=accept, c=case: a(c, srcs))) is True:
+                    return fid
+    except Exception:
+        return None
     return None
 
 
@@ -1061,6 +1216,8 @@ def nontrivial(case, obs):
         return len(case['views']) >= 2
     if case['kind'] == 'program':
         return len(case['nodes']) > 1 and len(case['stmts']) >= 2
+    if case['kind'] == 'pair':
+        return isinstance(obs, list) and len(obs) == 3 and obs[0] == 0
     if case['kind'] == 'directive':
         return isinstance(obs, list) and len(obs) == 2 and sum(1 for r in obs[1] if r[2]) >= 2
     kinds_ = {o[0] for o in case['ops']}
@@ -1085,8 +1242,10 @@ def kinds(case, obs):
             if obs[0] == 0 and case['introspection'] and len(executed) < len(case['stmts']):
                 out.append('program:some-statement-overridden')
         return out
+    if case['kind'] == 'pair':
+        return ['pair', 'pair:' + case['name'] + (':conflict' if isinstance(obs, list) and obs and obs[0] == 1 else '')]
     if case['kind'] == 'directive':
-        return ['directive', 'directive:' + case['name']]
+        return ['directive', 'directive:' + case['name']] + (['directive:iterator-argument'] if case.get('iter') else [])
     out = ['ops', 'ops-len-%d' % len(case['ops'])]
     for o, r in zip(case['ops'], obs if isinstance(obs, list) else []):
         out.append('op:' + o[0] + (':KeyError' if r == ['K'] else ':ValueError' if r == ['V'] else ''))
